@@ -143,20 +143,40 @@ Fixpoint parse_outs (l : list string) : option (list txout) :=
       | _ => None
       end
   end.
+(* an input item has 3 fields, or 6: ... = <prev txid bytes> = <vout> = <sequence>; the matcher never reads the last three *)
+Definition u32_arg (a : string) : option N :=
+  match N_of_dec a with Some n => if (n <=? 4294967295)%N then Some n else None | None => None end.
+Definition outpoint_ok (f : list string) : bool :=
+  match f with
+  | [] => true
+  | [t; vo; sq] => match expand t, u32_arg vo, u32_arg sq with Some _, Some _, Some _ => true | _, _, _ => false end
+  | _ => false
+  end.
+Definition outpoint_null (f : list string) : bool :=
+  match f with
+  | [t; vo; _] => match expand t, u32_arg vo with
+                  | Some bs, Some v => Nat.eqb (length bs) 32 && forallb (fun b => (b2n b =? 0)%N) bs && (v =? 4294967295)%N
+                  | _, _ => false end
+  | _ => false
+  end.
 Fixpoint parse_ins (l : list string) : option (list txin) :=
   match l with
   | [] => Some []
   | item :: r =>
       match split "=" item with
-      | [v; un; lk] =>
-          match opt_N v, opt_script un, opt_script lk, parse_ins r with
-          | Some sat, Some (Some u), Some lock, Some is =>
-              Some ({| i_satoshis := sat; i_unlocking := u; i_locking := lock |} :: is)
-          | _, _, _, _ => None
-          end
+      | v :: un :: lk :: rest =>
+          if outpoint_ok rest then
+            match opt_N v, opt_script un, opt_script lk, parse_ins r with
+            | Some sat, Some (Some u), Some lock, Some is =>
+                Some ({| i_satoshis := sat; i_unlocking := u; i_locking := lock |} :: is)
+            | _, _, _, _ => None
+            end
+          else None
       | _ => None
       end
   end.
+Definition any_null_outpoint (l : list string) : bool :=
+  existsb (fun item => match split "=" item with _ :: _ :: _ :: rest => outpoint_null rest | _ => false end) l.
 Definition items (a : string) : list string := match a with EmptyString => [] | _ => split "/" a end.
 
 Definition show_indices (all : list nat) (first : option nat) : string :=
@@ -266,7 +286,7 @@ Fixpoint reparse_ins (l : list txin) : option (list txin) :=
               | _, _ => None end
   end.
 
-Definition hstep (inputs : bool) (h : hstate) (st : string) : hres :=
+Definition hstep (inputs nullop : bool) (h : hstate) (st : string) : hres :=
   let with_ins (f : list txin -> option (list txin)) :=
     match f (h_ins h) with
     | Some l => HOk {| h_outs := h_outs h; h_ins := l; h_ci := h_ci h; h_cs := h_cs h; h_li := h_li h; h_ls := h_ls h; h_strict := h_strict h |}
@@ -336,6 +356,7 @@ Definition hstep (inputs : bool) (h : hstate) (st : string) : hres :=
         | None => HBadArg end
       else if String.eqb k "c" || String.eqb k "k" then HOk h
       else if String.eqb k "b" then
+        if nullop then HBadArg else      (* a parsed coinbase input carries a Coinbase script bit: outside this op *)
         match reparse_outs (h_outs h), reparse_ins (h_ins h) with
         | Some o, Some i => HOk {| h_outs := o; h_ins := i; h_ci := h_ci h; h_cs := h_cs h; h_li := h_li h; h_ls := h_ls h; h_strict := h_strict h |}
         | _, _ => HErr end
@@ -356,12 +377,12 @@ Definition obs_spec (inputs : bool) (h : hstate) : string :=
     else show_obs (indices_from (spec_out_selected (h_cs h)) 0 (h_outs h)) (first_from (spec_out_selected (h_cs h)) 0 (h_outs h))
   else "*".
 
-Fixpoint hrun (inputs : bool) (h : hstate) (steps : list string) (acc_i acc_s : list string) : string :=
+Fixpoint hrun (inputs nullop : bool) (h : hstate) (steps : list string) (acc_i acc_s : list string) : string :=
   match steps with
   | [] => out3 ("OK:" +++ join ";" (rev acc_i)) ("OK:" +++ join ";" (rev acc_s)) "-"
   | st :: r =>
-      match hstep inputs h st with
-      | HOk h' => hrun inputs h' r (obs_impl inputs h' :: acc_i) (obs_spec inputs h' :: acc_s)
+      match hstep inputs nullop h st with
+      | HOk h' => hrun inputs nullop h' r (obs_impl inputs h' :: acc_i) (obs_spec inputs h' :: acc_s)
       | HBadArg => "BADARG"
       | HBadTemplate => out3 "OK:badtemplate" "OK:badtemplate" "-"
       | HErr => out3 "ERR" "ERR" "-"
@@ -372,7 +393,7 @@ Definition run_history (kind items steps : string) : string :=
   let c0 := {| c_template := None; c_exact := None; c_min := None; c_max := None |} in
   let start (inputs : bool) (o : list txout) (i : list txin) :=
     let h := {| h_outs := o; h_ins := i; h_ci := c0; h_cs := c0; h_li := None; h_ls := None; h_strict := true |} in
-    hrun inputs h (match steps with EmptyString => [] | _ => split "/" steps end) [obs_impl inputs h] [obs_spec inputs h] in
+    hrun inputs (if inputs then any_null_outpoint (Exec_C19.items items) else false) h (match steps with EmptyString => [] | _ => split "/" steps end) [obs_impl inputs h] [obs_spec inputs h] in
   if String.eqb kind "o" then match parse_outs (Exec_C19.items items) with Some o => start false o [] | None => "BADARG" end
   else if String.eqb kind "i" then match parse_ins (Exec_C19.items items) with Some i => start true [] i | None => "BADARG" end
   else "BADARG".
